@@ -64,7 +64,7 @@ Proof. unfold Model.finish. intros H. destruct a, v; inversion H; subst; clear H
 Lemma exec_view s it s' o : exec s it = Some (s', o) ->
   exists c x x2, nth_error (cs s) c = Some x /\ cs s' = set_nth (cs s) c x2 /\ lob s' = lob s /\ view s s' c x x2.
 Proof.
-  unfold view. destruct it as [c a|c [k|] st|c|c]; simpl; intros H.
+  unfold view. destruct it as [c a|c [k|] st fl|c|c]; simpl; intros H.
   - destruct (nth_error (cs s) c) as [x|] eqn:Hx; [|discriminate].
     destruct (cur x) eqn:Hcur; [discriminate|]. destruct (alive x) eqn:Hal; [|discriminate]. simpl in H.
     destruct (obj_busy s c); [discriminate|]. destruct (is_acquire a).
@@ -82,8 +82,8 @@ Proof.
       exists k, h; eexists; (split; [exact Hh|]); (split; [reflexivity|]); simpl;
       (split; [reflexivity|]); (split; [congruence|]); intros Hd; right;
       try discriminate Hd; destruct (hb_stops_on_write_error F); auto; discriminate.
-    + assert (forall (P : Prop), (forall f' r, sem c (ngen s) st (fs s) (OChtimes PHb) = (f', r) -> P) -> P) as Hs.
-      { intros P HP. destruct (sem c (ngen s) st (fs s) (OChtimes PHb)) as [f' r] eqn:E. eapply HP. reflexivity. }
+    + assert (forall (P : Prop), (forall f' r, sem c (ngen s) st FNone (fs s) (OChtimes PHb) = (f', r) -> P) -> P) as Hs.
+      { intros P HP. destruct (sem c (ngen s) st FNone (fs s) (OChtimes PHb)) as [f' r] eqn:E. eapply HP. reflexivity. }
       destruct (fs s) as [d|] eqn:Hfs; simpl in H.
       * destruct (hbf d); inversion H; subst; clear H; simpl;
         (exists c, x; eexists; split; [exact Hx|]; split; [reflexivity|]; split; [reflexivity|]; split; [simpl; auto|]);
@@ -99,7 +99,7 @@ Proof.
         destruct (hb_cancelled s c h); [reflexivity|discriminate].
   - destruct (nth_error (cs s) c) as [x|] eqn:Hx; [|discriminate].
     destruct (cur x) as [[a p]|] eqn:Hcur; [|discriminate]. destruct p as [v|op k|k0]; [discriminate| |discriminate].
-    destruct (sem c (ngen s) st (fs s) op) as [f' r] eqn:Hsem.
+    destruct (sem c (ngen s) st fl (fs s) op) as [f' r] eqn:Hsem.
     match goal with H : context [match nxt a (k r) with Ret v => Model.finish F ?X a v ?E | Do _ _ => (?Y, None) | Chk _ => _ end] |- _ =>
       destruct (match nxt a (k r) with Ret v => Model.finish F X a v E | Do _ _ => (Y, None) | Chk _ => (Y, None) end) as [x2 ret] eqn:Hx2 end.
     inversion H; subst; clear H. simpl. exists c, x, x2. split; [exact Hx|]. split; [reflexivity|]. split; [reflexivity|].
@@ -128,7 +128,7 @@ Definition Inv3 (s : state) : Prop := Inv s /\ (bad s = false -> hb_ok s).
 
 Lemma bad_mono s it s' o : exec s it = Some (s', o) -> bad s' = false -> bad s = false.
 Proof.
-  intros He Hb. destruct it as [c a|c [k|] st|c|c].
+  intros He Hb. destruct it as [c a|c [k|] st fl|c|c].
   - destruct (exec_other_inv F s _ s' o He ltac:(discriminate)) as (? & ? & _ & _ & Hbad & _). congruence.
   - destruct (exec_other_inv F s _ s' o He ltac:(discriminate)) as (? & ? & _ & _ & Hbad & _). congruence.
   - apply exec_main_inv in He. apply mstep_x2 in He as (? & ? & ? & ? & ? & ? & _ & _ & _ & _ & Hbad & _).
